@@ -165,6 +165,11 @@ func firstPos(c *Ctx, fn *ssa.Function) string {
 // under new rule names (a property that contains another property's clause decides it itself
 // instead of referring to the sibling check).
 func adopt(dst, src *report.Result, rules map[string]string, why string, only ...func(report.Finding) bool) {
+	if src.Extra["sibling-cycle"] == true {
+		// the sibling is itself being evaluated further up the stack (it re-states one of this check's rules):
+		// this inner copy is only consulted for that other rule; the outer evaluation adopts for real
+		return
+	}
 	for from, to := range rules {
 		n := src.Instances[from]
 		if n == 0 {
